@@ -166,6 +166,13 @@ def selftest(tier):
     ok &= bool(hit)
 
     st, tr, caps, _ = F.lemma(wd, PROP, 100, 1)
+    # the trace self-tests use the messages whose frames are accepted on the current tree, and first
+    # show that the UNTAMPERED trace is accepted
+    pool = [m for m in pool if m["kind"] != "opaque"]
+    obs, tstats = F.impl_to_spec(wd, PROP, binary, SUB, pool, caps, count=30, max_msgs=6, both_dirs=True, crypt_only=True, nkeys=2)
+    clean = tstats["rejects"] == 0 and not tstats["incomplete"]
+    print("selftest %s: untampered trace of %d events -> %d rejected: %s" % (PROP, tstats["lines"], tstats["rejects"], "accepted" if clean else "NOT accepted"))
+    ok &= clean
 
     def alter(lines, owner):
         k = next(i for i, e in enumerate(lines) if e["ev"] == "wframe" and i > 10)
